@@ -19,13 +19,13 @@
 #define MAXLEN  4096
 
 enum { CL_ADD_BETWEEN, CL_REMOVE_BETWEEN, CL_MATCH, CL_NOMATCH, CL_NEARMISS, CL_SHORT, CL_SEGFILTER,
-       CL_MULTI, CL_ZERO_OUT, CL_BIG, CL_DUPFILTER, CL_PARENT_FIRST, CL_HOLD, CL_PARTIALMASK, CL_REMOVED_WOULD_MATCH };
+       CL_MULTI, CL_ZERO_OUT, CL_BIG, CL_DUPFILTER, CL_PARENT_FIRST, CL_HOLD, CL_PARTIALMASK, CL_REMOVED_WOULD_MATCH, CL_REJECTING_SINK };
 static const char *const class_names[] = {
     "output_added_between_sections", "output_removed_between_sections", "some_output_matched",
     "some_output_did_not_match", "one_masked_bit_off", "section_shorter_than_filter",
     "segment_boundary_inside_filtered_octets", "section_to_several_outputs", "section_with_no_output",
     "section_ge_1024", "two_outputs_same_filter", "split_released_before_outputs", "sink_holds_outputs",
-    "mask_with_partial_octet", "removed_output_would_have_matched", NULL };
+    "mask_with_partial_octet", "removed_output_would_have_matched", "sink_refusing_flow_definitions", NULL };
 
 struct out {
     bool live, used;
@@ -49,7 +49,28 @@ struct ctx {
 };
 
 #define R(...) do { if (c->render) vp_render(c->rep, __VA_ARGS__); } while (0)
-#define FAIL(key, ...) do { if (!c->ret) c->ret = vp_fail(c->rep, key, __VA_ARGS__); } while (0)
+/* Compiled three times: for C16 (routing of sections), with -DC16_AS=4 for C04 (announcements and flow definition of the
+ * pipe and its sub-pipes: only keys "C04/...") and with -DC16_AS=1 for C01 (destroyed exactly once, nothing left: "C01/..."). */
+#ifndef C16_AS
+#define C16_AS 16
+#endif
+#if C16_AS == 4
+#define EXEC_PID "C04"
+#define KEY_ON(key) (!strncmp(key, "C04/", 4))
+#elif C16_AS == 1
+#define EXEC_PID "C01"
+#define KEY_ON(key) (!strncmp(key, "C01/", 4))
+#else
+#define EXEC_PID "C16"
+#define KEY_ON(key) (!strncmp(key, "C16/", 4))
+#endif
+#define FAIL(key, ...) do { if (!c->ret && KEY_ON(key)) c->ret = vp_fail(c->rep, key, __VA_ARGS__); } while (0)
+/* protocol facts recorded by a probe of the fixture */
+#define PROTO(pr, what, idx) do { \
+    if ((pr).first_nonlog_not_ready) FAIL("C04/ready/first", "%s %d threw another event before READY", what, idx); \
+    if ((pr).n_dead > 1) FAIL("C04/dead/count", "%s %d threw DEAD %u times", what, idx, (pr).n_dead); \
+    if ((pr).n_after_dead) FAIL("C04/dead/last", "%s %d threw %u event(s) after DEAD (first: event %d)", what, idx, (pr).n_after_dead, (pr).first_after_dead); \
+} while (0)
 #define CLS(x) (c->classes |= 1u << (x))
 
 /* 1 selected, 0 not selected, -1 unspecified */
@@ -101,6 +122,11 @@ static void add_output(struct ctx *c)
         return;
     }
     c16_sink_init(&o->sink, c->nout, c->hold, &c->seq);
+#if C16_AS == 4
+    /* C04 only (the routing oracle is off): some sinks refuse every flow definition -- they must never receive a buffer */
+    o->sink.reject_flow_def = (seed & 7) == 7;
+    if (o->sink.reject_flow_def) CLS(CL_REJECTING_SINK);
+#endif
     o->used = true;
     o->sub = upipe_flow_alloc_sub(c->split, c16_probe_init(&o->probe, "out", c->nout, c->rep, c->render), flow_def);
     uref_free(flow_def);
@@ -279,13 +305,17 @@ out:
     for (int i = 0; i < c->nout; i++) {
         if (!c->out[i].used) continue;
         if (!c->ret && c->out[i].probe.n_ready && c->out[i].probe.n_dead != 1)
-            FAIL("C16/leak/split", "output %d was released but threw dead %u times", i, c->out[i].probe.n_dead);
+            FAIL("C01/audit/split", "output %d was released but threw dead %u times", i, c->out[i].probe.n_dead);
+        PROTO(c->out[i].probe, "output sub-pipe", i);
+        if (c->out[i].sink.data_before_flow_def) FAIL("C04/flowdef/missing", "the sink of output %d received a buffer before any flow definition", i);
+        if (c->out[i].sink.data_while_rejected) FAIL("C04/flowdef/rejected", "the sink of output %d received a buffer although it refused the flow definition", i);
         c16_sink_clean(&c->out[i].sink);
     }
     if (!c->ret && c->probe.n_ready && c->probe.n_dead != 1)
-        FAIL("C16/leak/split", "every reference was released but the splitter threw dead %u times", c->probe.n_dead);
+        FAIL("C01/audit/split", "every reference was released but the splitter threw dead %u times", c->probe.n_dead);
+    PROTO(c->probe, "the splitter", 0);
     const char *leak = fix_mem_clean(&c->fm);
-    if (leak && !c->ret) c->ret = vp_fail(rep, "C16/leak/split", "%s", leak);
+    if (leak) FAIL("C01/audit/split", "%s", leak);
 
     rep->case_hash = c->hash;
     rep->classes = c->classes;
@@ -293,4 +323,4 @@ out:
     return c->ret;
 }
 
-const struct vp_executor vp_executor = { "C16", "split", 160, class_names, run, NULL };
+const struct vp_executor vp_executor = { EXEC_PID, "split", 160, class_names, run, NULL };
